@@ -963,7 +963,38 @@ fn level2(ctx: &mut Ctx) {
                 rt.block_on(aresponder.add_resource(ResourceRecord::new(Name::new(&big_a).unwrap().into_owned(), CLASS::IN, 10, RData::TXT(txt))));
             }
         });
-        if filled.is_ok() {
+        // one record that is itself larger than a 9000-byte mDNS message (a TXT record of 44 strings, about 10.8 KB): whatever the
+        // service does about such a reply, it keeps running
+        let huge_r = format!("hugetxt-r{}.local", pid);
+        let huge_a = format!("hugetxt-a{}.local", pid);
+        let filled_huge = monitor::guard(|| {
+            let mut txt = simple_dns::rdata::TXT::new();
+            for k in 0..44u32 {
+                txt = txt.with_char_string(simple_dns::CharacterString::new(format!("{:03}{}", k, "h".repeat(242)).as_bytes()).unwrap().into_owned());
+            }
+            let txt = txt.into_owned();
+            responder.add_resource(ResourceRecord::new(Name::new(&huge_r).unwrap().into_owned(), CLASS::IN, 10, RData::TXT(txt.clone())));
+            rt.block_on(aresponder.add_resource(ResourceRecord::new(Name::new(&huge_a).unwrap().into_owned(), CLASS::IN, 10, RData::TXT(txt))));
+        });
+        if filled_huge.is_ok() {
+            for (what, name) in [("sync SimpleMdnsResponder (one record above 9000 bytes)", &huge_r), ("tokio SimpleMdnsResponder (one record above 9000 bytes)", &huge_a)] {
+                let m = Marker { what, name: name.clone(), qtype: TYPE::TXT };
+                mid = mid.wrapping_add(1);
+                match probe_reply(&sock, &group, &m, mid, Duration::from_secs(3)) {
+                    Some(reply) => {
+                        ctx.count("level2_single_record_large_replies_received");
+                        ctx.max("level2_largest_reply_bytes", reply.len() as f64);
+                        judge_real_reply(ctx, what, &reply);
+                    }
+                    None => ctx.notes.push(format!("level 2: no reply to the query for one very large record from the {} within 3 s (not judged)", what)),
+                }
+            }
+            if monitor::foreign_panic_count() > before {
+                report_foreign(ctx, "while answering a query for a single record larger than an mDNS message");
+                violated = true;
+            }
+        }
+        if filled.is_ok() && !violated {
             for (what, name) in [("sync SimpleMdnsResponder (large reply)", &big_r), ("tokio SimpleMdnsResponder (large reply)", &big_a)] {
                 let m = Marker { what, name: name.clone(), qtype: TYPE::TXT };
                 mid = mid.wrapping_add(1);
